@@ -12,7 +12,14 @@ import (
 	"strings"
 )
 
-const repoDir = "/repo"
+// repoDir is /repo for every registered command; VERIF_REPO exists only so that long background sweeps can
+// run against a snapshot of the repository while /repo itself is being used for seeded-change experiments.
+var repoDir = func() string {
+	if d := os.Getenv("VERIF_REPO"); d != "" {
+		return d
+	}
+	return "/repo"
+}()
 
 var verifDir = func() string {
 	if d := os.Getenv("VERIF_DIR"); d != "" {
